@@ -171,6 +171,8 @@ def gen_svg():
         raise GenError("write_fg_span: an effect is pushed twice")
     if not re.search(r'let classes = classes\.join\(" "\);', wf) or not re.search(r"let fragment = html_escape::encode_text\(fragment\);", wf):
         raise GenError("write_fg_span: join / encode_text not recognised")
+    if not re.search(r"let fragment = html_escape::encode_text\(fragment\);\s*let fragment = fragment\.replace\('\\r', \"&#13;\"\);", wf):
+        raise GenError("write_fg_span: the carriage return is not replaced by &#13; right after encode_text")
     # write_bg_span
     wb = _body(src, r"fn write_bg_span\s*\(buffer:\s*&mut String,\s*style:\s*&anstyle::Style,\s*fragment:\s*&str\)\s*\{", "write_bg_span")
     m = re.search(r'let fill = if bg_color\.is_some\(\) \{ "([^"\\]*)" \} else \{ "([^"\\]*)" \};', wb)
